@@ -231,10 +231,11 @@ let run_window2 g _obs =
   let pre = if g "pre" = "" then [] else List.map parse_event (String.split_on_char '|' (g "pre")) in
   let s1 = List.fold_left (fun s ev -> match ev with Sub m -> fst (submit s m) | _ -> s) s0 pre in
   let frame_of tag = match parse_event (g tag) with Rx (rx, an, na) -> (rx, an, na) | _ -> failwith "frame" in
-  let (rx1, an1, na1) = frame_of "f1" and (rx2, an2, na2) = frame_of "f2" in
-  let (s2, o1) = rx_event e d s1 rx1 an1 na1 (n_of_int 1) in
-  let (s3, o2) = rx_event e d s2 rx2 an2 na2 (n_of_int 1) in
-  let downs_only = List.filter (function ODown _ -> true | _ -> false) (o1 @ o2) in
+  let nf = (try int_of_string (g "nf") with _ -> 2) in
+  let (s3, outs) = List.fold_left (fun (s, acc) i ->
+      let (rx, an, na) = frame_of ("f" ^ string_of_int i) in
+      let (s', o) = rx_event e d s rx an na (n_of_int 1) in (s', acc @ o)) (s1, []) (List.init nf (fun i -> i + 1)) in
+  let downs_only = List.filter (function ODown _ -> true | _ -> false) outs in
   (out_strings downs_only ^ " " ^ dump_all s3 euis, s1, s3)
 
 let run_history g obs (judge : n list -> step list -> string) =
